@@ -26,19 +26,20 @@ import (
 
 // Case is everything needed to (re-)run one call sequence on one knowledge base instance.
 type Case struct {
-	ID       int             `json:"id"`
-	GRL      string          `json:"grl"`
-	RulesJS  json.RawMessage `json:"rules"`            // program AST for the monitor
-	Counted  json.RawMessage `json:"counted"`          // the one counted method atom of the program, or {"k":"none"}
-	Stream   []byte          `json:"stream,omitempty"` // variant reloaded-cut: the (truncated) stream itself, loaded as is
-	Other    *World          `json:"other"`
-	pre      func()          // scheduler gate: called at every observable point of a call (concurrent replay)            // facts an earlier instance of the same library is run on (variant second)
-	Removed  []string        `json:"removed"` // rules removed from the library before instantiation
-	Parts    []string        `json:"parts"`   // the same rules split over several resources (variant multi)
-	Variant  string          `json:"variant"` // fresh | reloaded | reloaded2 | second | multi
-	Calls    []CallCfg       `json:"calls"`   // calls made on the one instance, in order
-	Profile  string          `json:"profile"`
-	Listener int             `json:"listeners"` // number of listeners (0 = none: no trace but result checked)
+	ID        int             `json:"id"`
+	GRL       string          `json:"grl"`
+	RulesJS   json.RawMessage `json:"rules"`            // program AST for the monitor
+	Counted   json.RawMessage `json:"counted"`          // the one counted method atom of the program, or {"k":"none"}
+	Stream    []byte          `json:"stream,omitempty"` // variant reloaded-cut: the (truncated) stream itself, loaded as is
+	Other     *World          `json:"other"`
+	pre       func()          // scheduler gate: called at every observable point of a call (concurrent replay)            // facts an earlier instance of the same library is run on (variant second)
+	Removed   []string        `json:"removed"`   // rules removed from the library before instantiation
+	JSONRules string          `json:"jsonRules"` // the same rules as a JSON rule set (variant json)
+	Parts     []string        `json:"parts"`     // the same rules split over several resources (variant multi)
+	Variant   string          `json:"variant"`   // fresh | reloaded | reloaded2 | second | multi
+	Calls     []CallCfg       `json:"calls"`     // calls made on the one instance, in order
+	Profile   string          `json:"profile"`
+	Listener  int             `json:"listeners"` // number of listeners (0 = none: no trace but result checked)
 }
 
 // CallCfg configures one Execute / FetchMatchingRules call.
@@ -260,7 +261,15 @@ func BuildInstance(c *Case) (*ast.KnowledgeBase, error) {
 	}
 	lib := ast.NewKnowledgeLibrary()
 	rb := builder.NewRuleBuilder(lib)
-	if c.Variant == "multi" && len(c.Parts) > 0 {
+	if c.Variant == "json" && c.JSONRules != "" {
+		res, err := pkg.NewJSONResourceFromResource(pkg.NewBytesResource([]byte(c.JSONRules)))
+		if err != nil {
+			return nil, fmt.Errorf("build: JSON rule set: %w", err)
+		}
+		if err := rb.BuildRuleFromResource("kb", "1", res); err != nil {
+			return nil, fmt.Errorf("build: %w", err)
+		}
+	} else if c.Variant == "multi" && len(c.Parts) > 0 {
 		for _, part := range c.Parts {
 			if err := rb.BuildRuleFromResource("kb", "1", pkg.NewBytesResource([]byte(part))); err != nil {
 				return nil, fmt.Errorf("build: %w", err)
